@@ -46,21 +46,19 @@ func pinnedPKOrder(r *core.Run) {
 }
 
 // pinnedUnbuilt replays the pinned witness of the known class "a CREATE UNIQUE INDEX over a prefix
-// column that fails during the build inside a transaction leaves a registered, empty index".
+// column that fails during the build leaves a registered, empty index".
 func pinnedUnbuilt(r *core.Run) {
 	e := core.NewEng("d")
 	defer e.Close()
 	s := e.NewSess()
 	script := []string{
-		"CREATE TABLE t (id INT PRIMARY KEY, s VARCHAR(12))",
-		"INSERT INTO t VALUES (1,'abcd'),(2,'abce'),(3,'x')",
-		"BEGIN",
+		"CREATE TABLE t (id INT PRIMARY KEY, s VARCHAR(12), b INT, KEY ib(b))",
+		"INSERT INTO t VALUES (1,'abcd',1),(2,'abce',1),(3,'x',1)",
 	}
 	for _, q := range script {
 		s.MustExec(q)
 	}
 	cr := s.Exec("CREATE UNIQUE INDEX us ON t (s(3))")
-	s.Exec("COMMIT")
 	viaIndex := core.SortedRows(s.Exec("SELECT id FROM t WHERE s = 'x'").Rows)
 	var viaScan []string
 	for _, row := range s.Exec("SELECT id, (s = 'x') IS TRUE FROM t").Rows {
@@ -69,7 +67,7 @@ func pinnedUnbuilt(r *core.Run) {
 		}
 	}
 	still := cr.Failed() && !core.SameStrings(viaIndex, viaScan)
-	r.Pinned(sigUnbuilt, fmt.Sprintf("BEGIN; CREATE UNIQUE INDEX us ON t (s(3)) fails (1062, 'abcd'/'abce'); COMMIT; SELECT id FROM t WHERE s='x' -> %v via index us, %v via scan", viaIndex, viaScan), still,
-		map[string]any{"script": append(script, "CREATE UNIQUE INDEX us ON t (s(3))  -- fails with 1062", "COMMIT"), "via_index": viaIndex, "via_scan": viaScan})
+	r.Pinned(sigUnbuilt, fmt.Sprintf("table with KEY ib(b): CREATE UNIQUE INDEX us ON t (s(3)) fails (1062, 'abcd'/'abce'); SELECT id FROM t WHERE s='x' -> %v via index us, %v via scan", viaIndex, viaScan), still,
+		map[string]any{"script": append(script, "CREATE UNIQUE INDEX us ON t (s(3))  -- fails with 1062"), "via_index": viaIndex, "via_scan": viaScan})
 	r.Eval(1)
 }
